@@ -27,6 +27,24 @@ MCSpec == MCInit /\ [][MCNext]_mcvars
 
 Inv == WTypeOK /\ WindowsTile /\ RegionInOwnWindow /\ RegionsContiguous /\ WrittenLenIsPending /\ StickyMatches
 
+\* Refinement: every step of the detailed model is a step of the integer core (Ind_BufWriter.tla, whose invariants Apalache
+\* proves for regions, buffers and histories of any size and length), for EACH choice k of the region the core tracks
+CoreOf(k) == INSTANCE Ind_BufWriter WITH
+   ParkKeepsWindow <- TRUE,
+   len <- W.len, cap <- W.cap, isnil <- W.isnil, failed <- (W.err # "nil"), cache <- W.cache,
+   winLo <- (IF W.pend = <<>> THEN 0 ELSE W.pend[Len(W.pend)].len), npark <- Len(W.pend),
+   base <- (IF G.first THEN G.init ELSE 0), sumPend <- SumLen(G.pend), nreg <- Len(G.pend),
+   tk <- (k <= Len(W.regs)),
+   tOff <- (IF k <= Len(W.regs) THEN W.regs[k].off ELSE 0),
+   tLen <- (IF k <= Len(W.regs) THEN W.regs[k].len ELSE 0),
+   tBefore <- (IF k <= Len(W.regs) THEN SumLen(SubSeq(G.pend, 1, k - 1)) ELSE 0),
+   tCur <- (k <= Len(W.regs) /\ W.regs[k].buf = Len(W.pend) + 1),
+   tLo <- (IF k <= Len(W.regs) /\ W.regs[k].buf <= Len(W.pend) THEN WinLo(W, W.regs[k].buf) ELSE 0),
+   tHi <- (IF k <= Len(W.regs) /\ W.regs[k].buf <= Len(W.pend) THEN WinHi(W, W.regs[k].buf) ELSE 0),
+   rop <- wres.op, rn <- wres.n, re <- wres.e
+RefinesCore == \A k \in 1 .. MaxOps : (CoreOf(k)!Init /\ [][CoreOf(k)!Next]_(CoreOf(k)!wcvars))
+CoreInvHolds == \A k \in 1 .. MaxOps : CoreOf(k)!IndInv
+
 \* action properties
 StickyError == [][(W.err # "nil") => (W' = W /\ sink' = sink /\ wres'.e = W.err)]_mcvars
 FlushEmpties == [][(wres'.op = "flush" /\ wres'.e = "nil" /\ nops' = nops + 1) => (W'.len = 0 /\ G'.pend = <<>>)]_mcvars
